@@ -71,9 +71,14 @@ fn die(msg: &str) -> ! {
 }
 
 fn cstr(s: &str) -> CString {
-    // interior NULs are cut, as C would see them
-    let b: Vec<u8> = s.bytes().take_while(|&c| c != 0).collect();
+    // interior NULs are cut, as C would see them; raw bytes carried as private-use characters are restored
+    let b: Vec<u8> = proto::dec_path(s).into_iter().take_while(|&c| c != 0).collect();
     CString::new(b).unwrap()
+}
+
+/// a path argument for the Rust API, byte-exact
+fn pbuf(s: &str) -> std::path::PathBuf {
+    std::path::PathBuf::from(<std::ffi::OsString as std::os::unix::ffi::OsStringExt>::from_vec(proto::dec_path(s)))
 }
 
 unsafe fn write_file(path: &str, data: &str) {
@@ -165,6 +170,9 @@ fn sysno(name: &str) -> i64 {
         "statx" => libc::SYS_statx,
         "renameat2" => libc::SYS_renameat2,
         "faccessat2" => libc::SYS_faccessat2,
+        "symlinkat" => libc::SYS_symlinkat,
+        "mknodat" => libc::SYS_mknodat,
+        "linkat" => libc::SYS_linkat,
         other => die(&format!("unknown syscall in deny list: {}", other)),
     }
 }
@@ -346,8 +354,8 @@ fn itype_of(op: &Op) -> Result<InodeType, String> {
     Ok(match op.itype.as_deref().unwrap_or("") {
         "file" => InodeType::File(perm),
         "dir" => InodeType::Directory(perm),
-        "symlink" => InodeType::Symlink(op.path2.clone().unwrap_or_default().into()),
-        "hardlink" => InodeType::Hardlink(op.path2.clone().unwrap_or_default().into()),
+        "symlink" => InodeType::Symlink(pbuf(&op.path2.clone().unwrap_or_default())),
+        "hardlink" => InodeType::Hardlink(pbuf(&op.path2.clone().unwrap_or_default())),
         "fifo" => InodeType::Fifo(perm),
         "chr" => InodeType::CharacterDevice(perm, op.dev.unwrap_or(0x0103)),
         "blk" => InodeType::BlockDevice(perm, op.dev.unwrap_or(0x0700)),
@@ -408,7 +416,8 @@ fn c_readlink(root_or_base: Result<c_int, u64>, path: *const c_char, bufsize: i6
 fn run_op_inner(st: &mut State, op: &Op) -> Obs {
     let flags = OpenFlags::from_bits_retain(op.flags.unwrap_or(0) as i32);
     let rfl = ResolverFlags::from_bits_retain(op.rflags.unwrap_or(0));
-    let path = op.path.clone().unwrap_or_default();
+    let path_s = op.path.clone().unwrap_or_default();
+    let path = pbuf(&path_s);
     let capi = op.api == "c";
     macro_rules! root {
         () => {
@@ -423,7 +432,7 @@ fn run_op_inner(st: &mut State, op: &Op) -> Obs {
     macro_rules! unit {
         ($e:expr) => { match $e { Ok(()) => Obs { ok: true, ..Default::default() }, Err(e) => err_obs(e) } };
     }
-    let cpath = cstr(&path);
+    let cpath = cstr(&path_s);
     let cpath_ptr: *const c_char = if op.path.is_none() && capi { std::ptr::null() } else { cpath.as_ptr() };
     let cpath2 = cstr(op.path2.as_deref().unwrap_or(""));
     let cpath2_ptr: *const c_char = if op.path2.is_none() && capi { std::ptr::null() } else { cpath2.as_ptr() };
@@ -433,14 +442,14 @@ fn run_op_inner(st: &mut State, op: &Op) -> Obs {
         (false, "resolve") => { let r = root!(); match r.resolve(&path) { Ok(h) => ok_fd(st, op, h.into()), Err(e) => err_obs(e) } }
         (false, "resolve_nofollow") => { let r = root!(); match r.resolve_nofollow(&path) { Ok(h) => ok_fd(st, op, h.into()), Err(e) => err_obs(e) } }
         (false, "open_subpath") => { let r = root!(); match r.open_subpath(&path, flags) { Ok(f) => ok_fd(st, op, f.into()), Err(e) => err_obs(e) } }
-        (false, "readlink") => { let r = root!(); match r.readlink(&path) { Ok(p) => Obs { ok: true, text: Some(p.to_string_lossy().into_owned()), ..Default::default() }, Err(e) => err_obs(e) } }
+        (false, "readlink") => { let r = root!(); match r.readlink(&path) { Ok(p) => Obs { ok: true, text: Some(proto::enc_bytes(std::os::unix::ffi::OsStrExt::as_bytes(p.as_os_str()))), ..Default::default() }, Err(e) => err_obs(e) } }
         (false, "create") => { let it = match itype_of(op) { Ok(i) => i, Err(e) => return harness_err(e) }; let r = root!(); unit!(r.create(&path, &it)) }
         (false, "create_file") => { let r = root!(); match r.create_file(&path, flags, &Permissions::from_mode(op.mode.unwrap_or(0o644))) { Ok(f) => ok_fd(st, op, f.into()), Err(e) => err_obs(e) } }
         (false, "mkdir_all") => { let r = root!(); match r.mkdir_all(&path, &Permissions::from_mode(op.mode.unwrap_or(0o755))) { Ok(h) => ok_fd(st, op, h.into()), Err(e) => err_obs(e) } }
         (false, "remove_file") => { let r = root!(); unit!(r.remove_file(&path)) }
         (false, "remove_dir") => { let r = root!(); unit!(r.remove_dir(&path)) }
         (false, "remove_all") => { let r = root!(); unit!(r.remove_all(&path)) }
-        (false, "rename") => { let r = root!(); let p2 = op.path2.clone().unwrap_or_default(); unit!(r.rename(&path, &p2, RenameFlags::from_bits_retain(op.flags.unwrap_or(0) as u32))) }
+        (false, "rename") => { let r = root!(); let p2 = op.path2.clone().unwrap_or_default(); unit!(r.rename(&path, &pbuf(&p2), RenameFlags::from_bits_retain(op.flags.unwrap_or(0) as u32))) }
         (false, "root_try_clone") => { let r = root!(); match r.try_clone() { Ok(r2) => ok_fd(st, op, r2.into()), Err(e) => err_obs(e) } }
         // ------------------------------------------------------------------ Rust API, Handle
         (false, "reopen") => {
@@ -489,9 +498,9 @@ fn run_op_inner(st: &mut State, op: &Op) -> Obs {
         },
         (false, "proc_from_path") => {
             // user-supplied fd: open `path` (absolute, inside the jail) and hand it to try_from_fd
-            let c = cstr(&path);
+            let c = cstr(&path_s);
             let fd = unsafe { libc::open(c.as_ptr(), libc::O_PATH | libc::O_DIRECTORY | libc::O_CLOEXEC) };
-            if fd < 0 { return harness_err(format!("open {} failed", path)); }
+            if fd < 0 { return harness_err(format!("open {} failed", path_s)); }
             match ProcfsHandle::try_from_fd(unsafe { OwnedFd::from_raw_fd(fd) }) {
                 Ok(p) => { st.procs.insert(op.keep.clone().unwrap_or_else(|| "p".into()), p); Obs { ok: true, ..Default::default() } }
                 Err(e) => err_obs(e),
@@ -593,7 +602,7 @@ fn run_op_inner(st: &mut State, op: &Op) -> Obs {
         }
         (_, "raw_open") => {
             // plain libc open (harness utility, e.g. to lend descriptors or to open sockets/devices as handles)
-            let c = cstr(&path);
+            let c = cstr(&path_s);
             let fd = unsafe { libc::open(c.as_ptr(), op.flags.unwrap_or(0) as c_int | libc::O_CLOEXEC, 0o644) };
             if fd < 0 { return Obs { ok: false, errno: Some(std::io::Error::last_os_error().raw_os_error().unwrap_or(0)), kind: Some("raw".into()), ..Default::default() }; }
             ok_fd(st, op, unsafe { OwnedFd::from_raw_fd(fd) })
